@@ -1,12 +1,13 @@
 """C02 - stocks and flows stay non-negative, finite, never over-drawn; common rescale factor; negative parameter => zero flow."""
 import numpy as np
-from vlib import gen_model, simcase, oracles, replay
+from hypothesis import strategies as st
+from vlib import gen_model, simcase, oracles, replay, libcase
 from vlib.build import link_key
 from vlib.runner import Violation, Discard
 
 ID = "C02"
 RULE = (
-    "cases = generated ModelSpecs with extreme value classes forced on (rates far above 1/dt, tiny durations, number transitions above the source size, "
+    "cases = perturbed library projects (y-factors up to x100 on any parameter) and generated ModelSpecs with extreme value classes forced on (rates far above 1/dt, tiny durations, number transitions above the source size, "
     "empty compartments, parameter functions that go negative, sizes up to 1e10); oracle = all stocks/flows finite and >= 0, outflow <= stock, and by one-step "
     "replay from atomica's own state: in every compartment (per elapsed-time bin for timed ones) whose requested fractions sum above 1 the recorded flows equal "
     "stock*f_i/sum(f) (so ratios are preserved and the compartment is exactly emptied), a negative parameter gives exactly 0 on all its links; "
@@ -25,11 +26,12 @@ def strategy(tier):
     prof = dict(PROFILE)
     if tier == "thorough":
         prof.update(max_steps=80, max_ord=6, max_pops=4)
-    return gen_model.model_specs(prof)
+    m = gen_model.model_specs(prof)
+    return st.one_of(m, m, m, m, m, libcase.lib_cases(20 if tier == "quick" else 80, quick=(tier == "quick")))
 
 
 def check(spec):
-    b, res = simcase.run_spec(spec)
+    b, res = simcase.run_any(spec)
     oracles.sign_and_overdraw(res, ID)
     rp = replay.Replay(res)
     feats = set()
